@@ -3,6 +3,7 @@ C11 — TURN wire codecs round-trip and reject malformed input safely.
 Property theorems only (helpers live in Lemmas/Wire.lean).  Model: Model/Wire.lean (M1).
 -/
 import TurnModel.Lemmas.Wire
+import TurnModel.Gen.Consts
 namespace Turn.C11
 
 /-- ∀ valid number, ∀ payload of < 65536 bytes: decode ∘ encode = id. -/
@@ -104,6 +105,14 @@ theorem reqfam_wrong_size (v : Bytes) (h : v.length ≠ 4) : reqFamGet (some v) 
 
 theorem evenport_get_add (r : Bool) : evenPortGet (some (evenPortAdd r)) = .ok r := by
   cases r <;> decide
+
+set_option maxRecDepth 100000 in
+/-- only the R bit decides: a value byte with the R bit clear reads as "do not reserve" whatever its reserved bits,
+    one with it set as "reserve"; and the mask in the source is that bit -/
+theorem evenport_reads_r_bit : ∀ n : Fin 256, evenPortGet (some [UInt8.ofNat n.val]) = .ok (decide (128 ≤ n.val)) := by
+  decide +kernel
+
+theorem evenport_mask_regenerated : Gen.Consts.proto_firstBitSet = 128 := by decide
 
 theorem evenport_wrong_size (v : Bytes) (h : v.length ≠ 1) : evenPortGet (some v) = .error .badSize := by
   match v, h with
